@@ -3,6 +3,7 @@
 mod alloc;
 mod codec;
 mod endpoint;
+mod fq;
 mod tables;
 mod util;
 
@@ -31,6 +32,18 @@ fn main() {
                 let r = e.op(&words);
                 writeln!(out, "{}", r).unwrap();
                 out.flush().unwrap();
+            }
+        }
+        "fq" => {
+            let mut e = fq::FqEngine::new();
+            for line in stdin.lock().lines() {
+                let line = line.unwrap();
+                let words: Vec<&str> = line.split_whitespace().collect();
+                if words.is_empty() || words[0].starts_with('#') {
+                    continue;
+                }
+                let r = e.op(&words);
+                writeln!(out, "{}", r).unwrap();
             }
         }
         "endpoint" => {
